@@ -58,6 +58,13 @@ OrigCase(v, f, e, sid, sub, shape) ==
                 [] shape = 2 -> <<[op |-> "remove", cls |-> 2, idx |-> <<>>]>>
                 [] shape = 3 -> <<[op |-> "select", cls |-> 0, idx |-> <<2, 1>>]>>]
 
+\* a merged list: the two rows have different pixel sizes (taken from the data, per particle)
+OtherPx(px) == IF px = <<2, 1>> THEN <<27, 20>> ELSE <<2, 1>>
+MixedPxCase(v, px, e, sid) ==
+    [mode |-> "import", v |-> v, px |-> px, pxs |-> <<px, OtherPx(px)>>, fmt |-> Plain,
+     rin |-> <<Rin(<<16, 24, 40>>, <<-9, 4, 24>>, e, 3, sid, 1, 2, v, px),
+               Rin(<<24, 8, 16>>, <<4, -4, 1>>, <<1, 1, 2>>, 17, 1308, 2, 3, v, OtherPx(px))>>]
+
 Start == rel = <<>> /\ back = <<>> /\ pc = "start" /\ op = "init" /\ cid = 0 /\ live = <<>>
 
 \* (formats only make sense with their version family)
@@ -70,6 +77,7 @@ MCInit(quick) ==
               cs = ImportCase(v, px, f, <<-9, 4, 24>>, e, sid, sub, TRUE)
        \/ \E v \in {30, 31, 40} : \E f \in Formats(v, quick) : \E e \in Triples, sid \in {7, 12}, sub \in {1, 2}, shape \in 1..3 :
               cs = OrigCase(v, f, e, sid, sub, shape)
+       \/ \E v \in {30, 31, 40}, px \in PxSet, e \in Triples, sid \in {7, 12} : cs = MixedPxCase(v, px, e, sid)
     /\ Start
 
 QuickInit == MCInit(TRUE)
